@@ -54,8 +54,10 @@ class HProxy:
     def assume(self, c):
         return self._get().assume(c)
 
-    def check(self, name, c):
-        return self._get().check(name, c)
+    def check(self, name, c, independent=False):
+        """independent: after a (new) refutation of this obligation the path continues without assuming it, so that
+        later obligations - tagged for other properties - are judged on their own"""
+        return self._get().check(name, c, independent)
 
     def cover(self, name):
         return self._get().cover(name)
@@ -243,8 +245,8 @@ class SymH:
         if not self.e.feasible(z3.BoolVal(True)):
             raise Infeasible()
 
-    def check(self, name, c):
-        self.e.check(self._z(c), name)
+    def check(self, name, c, independent=False):
+        self.e.check(self._z(c), name, independent=independent)
 
     def cover(self, name):
         self.e.covers.add(name)
@@ -634,7 +636,7 @@ class NativeH:
             self.assume_failed = True
             raise AssumeFailed("assume")
 
-    def check(self, name, c):
+    def check(self, name, c, independent=False):
         (self.passed if c else self.failed).append(name)
 
     def cover(self, name):
